@@ -1,6 +1,8 @@
 package main
 
 import (
+	"net/url"
+	"strconv"
 	"strings"
 
 	"github.com/go-openapi/swag"
@@ -46,11 +48,18 @@ var flattenStream = (&StreamSpec{
 			all := true
 			for _, e := range nc {
 				pair, _ := e.([]any)
-				tgt := ""
+				tgt, holder := "", ""
 				if len(pair) == 2 {
+					holder, _ = pair[0].(string)
 					tgt, _ = pair[1].(string)
 				}
 				if !(strings.HasPrefix(tgt, "#/parameters/") || strings.HasPrefix(tgt, "#/responses/")) {
+					all = false
+				}
+				// … and it got there as part of a copy: where it sits now, the input had another anonymous pointer, whose
+				// target (a simple schema, inlined by Flatten) contains this pointer.  A pointer that Flatten simply did not
+				// process where it stood is a different failure.
+				if !copiedWithPointerTarget(get(c.In, "bundle", "root"), holder, tgt) {
 					all = false
 				}
 			}
@@ -169,6 +178,93 @@ func idlessKeyCollision(doc any) bool {
 				return true
 			}
 			seen[k] = true
+		}
+	}
+	return false
+}
+
+// copiedWithPointerTarget: in the input document, some prefix of the holder's position carries an anonymous pointer q != ref
+// whose target contains {"$ref": ref} (D16: the target was inlined together with the pointer it holds).
+func copiedWithPointerTarget(root any, holderKey, ref string) bool {
+	toks := ptrTokens(strings.TrimPrefix(holderKey, "#"))
+	cur := root
+	for i := 0; i <= len(toks); i++ {
+		if m, ok := cur.(map[string]any); ok {
+			if q, ok := m["$ref"].(string); ok && q != ref && strings.HasPrefix(q, "#/") {
+				if tgt, ok := ptrResolve(root, ptrTokens(strings.TrimPrefix(q, "#"))); ok && containsRef(tgt, ref) {
+					return true
+				}
+			}
+		}
+		if i == len(toks) {
+			break
+		}
+		next, ok := ptrStep(cur, toks[i])
+		if !ok {
+			break
+		}
+		cur = next
+	}
+	return false
+}
+
+func ptrTokens(p string) []string {
+	if p == "" {
+		return nil
+	}
+	if u, err := url.PathUnescape(p); err == nil {
+		p = u
+	}
+	var out []string
+	for _, t := range strings.Split(strings.TrimPrefix(p, "/"), "/") {
+		out = append(out, strings.ReplaceAll(strings.ReplaceAll(t, "~1", "/"), "~0", "~"))
+	}
+	return out
+}
+
+func ptrStep(cur any, tok string) (any, bool) {
+	switch v := cur.(type) {
+	case map[string]any:
+		n, ok := v[tok]
+		return n, ok
+	case []any:
+		i, err := strconv.Atoi(tok)
+		if err != nil || i < 0 || i >= len(v) {
+			return nil, false
+		}
+		return v[i], true
+	}
+	return nil, false
+}
+
+func ptrResolve(root any, toks []string) (any, bool) {
+	cur := root
+	for _, t := range toks {
+		n, ok := ptrStep(cur, t)
+		if !ok {
+			return nil, false
+		}
+		cur = n
+	}
+	return cur, true
+}
+
+func containsRef(node any, ref string) bool {
+	switch v := node.(type) {
+	case map[string]any:
+		if r, ok := v["$ref"].(string); ok && r == ref {
+			return true
+		}
+		for _, c := range v {
+			if containsRef(c, ref) {
+				return true
+			}
+		}
+	case []any:
+		for _, c := range v {
+			if containsRef(c, ref) {
+				return true
+			}
 		}
 	}
 	return false
